@@ -151,7 +151,7 @@ CLAIMED["C03"] = dict(
     "fallthrough; joining a non-empty block that does not fall through with the dead empty block behind it adds no "
     "edge (no fallthrough after a jump or return); the empty tail behind a terminator gets at most the one "
     "fallthrough to the code that follows; after join_blocks no edge starts or ends at the absorbed block, after "
-    "remove_block has removed a code block no edge ends at it." + EMOD_TIE + " The oracle is the rule-by-rule control flow of the output "
+    "remove_block has removed a code block no edge ends at it and, if no return edge left it, none starts at it." + EMOD_TIE + " The oracle is the rule-by-rule control flow of the output "
     "bytes decoded by capstone. Partial: composition over whole insert/delete calls and return-edge maintenance "
     "are decided by oracle and correspondence only.",
     technique=EMOD_TECH,
